@@ -557,16 +557,50 @@ type c05DM struct {
 	nBlocks int
 }
 
-func c05DMDecode(m *gozxing.BitMatrix) (string, string) {
+func c05DMDecodeWith(d *dmdecoder.Decoder, m *gozxing.BitMatrix) (string, string) {
 	text := ""
 	out := Safe(func() string {
-		r, e := dmdecoder.NewDecoder().Decode(cqrClone(m))
+		r, e := d.Decode(cqrClone(m))
 		if e != nil {
 			return "ERR:" + errKind(e)
 		}
 		text = r.GetText()
 		return "ok " + hexs([]byte(text))
 	})
+	return out, text
+}
+
+var c05DMLongPool = make(chan *c05DMLong, 64)
+
+type c05DMLong struct {
+	d    *dmdecoder.Decoder
+	hist []string
+}
+
+// c05DMDecode: fresh decoder (the answer used by the suites) and, for comparison, a long-lived one (see cqrGoDecode).
+func c05DMDecode(m *gozxing.BitMatrix) (string, string) {
+	out, text := c05DMDecodeWith(dmdecoder.NewDecoder(), m)
+	var ld *c05DMLong
+	select {
+	case ld = <-c05DMLongPool:
+	default:
+		ld = &c05DMLong{d: dmdecoder.NewDecoder()}
+	}
+	out2, _ := c05DMDecodeWith(ld.d, m)
+	cqrReuseMu.Lock()
+	cqrReuseCalls++
+	if out2 != out && len(cqrReuseDiffs) < 5 {
+		cqrReuseDiffs = append(cqrReuseDiffs, cqrReuseMismatch{"datamatrix " + cqrMatrixDesc(m), strings.Join(ld.hist, " ; "), out, out2})
+	}
+	cqrReuseMu.Unlock()
+	ld.hist = append(ld.hist, fmt.Sprintf("%dx%d -> %s", m.GetWidth(), m.GetHeight(), c05Short(out)))
+	if len(ld.hist) > 3 {
+		ld.hist = ld.hist[len(ld.hist)-3:]
+	}
+	select {
+	case c05DMLongPool <- ld:
+	default:
+	}
 	return out, text
 }
 
